@@ -242,6 +242,69 @@ def job_epoch(ctx, mode, rep, ranges=None, direction="both"):
                    bounds={"years": "1969..1971", "offsets": "whole hours +-1"}, sample_every=100)
 
 
+SEQ_DRIVER = r"""
+import json, sys
+from metomi.isodatetime.data import TimePoint, TimeZone
+from metomi.isodatetime.parsers import TimePointParser
+P = TimePointParser(assumed_time_zone=(0, 0))
+out = []
+pts = [P.parse(s) for s in ("2021-03-15T11:55:05+13:45", "2021-03-14T22:10:05Z", "2021-03-14T17:10:05-05:00",
+                            "2000-12-31T24:00:00Z", "2001-01-01T00:00:00Z", "2004-W53-7T23:00:00-01:00", "2005-01-03T00:00:00Z")]
+fmts = ["%F %X %z", "%Y-%jT%H:%M", "%s %d/%m", "%H%M%S%z"]
+for f in fmts:
+    for p in pts:                       # equal instants in different offsets, one after the other
+        out.append([f, str(p), p.strftime(f)])
+for f in fmts:
+    for p in reversed(pts):
+        out.append([f, str(p), p.strftime(f)])
+print(json.dumps(out))
+"""
+
+
+def _seq(repo=None):
+    import json, os, subprocess, sys
+    repo = os.environ.get("VERIF_REPO", "/repo")
+    p = subprocess.run([sys.executable, "-c", SEQ_DRIVER], capture_output=True, text=True, env=dict(os.environ, PYTHONPATH=repo),
+                       cwd=repo, timeout=120)
+    return json.loads(p.stdout.strip().splitlines()[-1]) if p.returncode == 0 else None
+
+
+def _single(fmt, text):
+    import json, os, subprocess, sys
+    repo = os.environ.get("VERIF_REPO", "/repo")
+    code = ("import sys; from metomi.isodatetime.parsers import TimePointParser; "
+            "print(TimePointParser(assumed_time_zone=(0,0)).parse(sys.argv[2]).strftime(sys.argv[1]))")
+    p = subprocess.run([sys.executable, "-c", code, fmt, text], capture_output=True, text=True, env=dict(os.environ, PYTHONPATH=repo),
+                       cwd=repo, timeout=60)
+    return p.stdout.rstrip("\n") if p.returncode == 0 else None
+
+
+def job_sequence(ctx):
+    """concrete supplement: formatting several equal instants held in different offsets / forms one after the other in
+    one process gives, for each, what a fresh process gives (no state carried between calls)"""
+    res = new_result("sequence[concrete]")
+    seq = _seq()
+    if seq is None:
+        res["error"] = "sequence driver failed"
+        return res
+    memo = {}
+    for fmt, text, got in seq:
+        res["obligations"] += 1
+        res["paths"] += 1
+        if (fmt, text) not in memo:
+            memo[(fmt, text)] = _single(fmt, text)
+        if got == memo[(fmt, text)]:
+            res["discharged"] += 1
+            res["trivially"] += 1
+        elif len(res["candidates"]) < 3:
+            res["candidates"].append({"label": "strftime result independent of earlier calls", "how": "concrete",
+                                      "case": {"check": "sequence", "mode": "gregorian", "fmt": fmt, "text": text}})
+    res["nontrivial_paths"] = res["paths"]
+    res["scenarios"]["call sequences"] = {"calls": len(seq)}
+    res["notes"].append("concrete sequence in one process vs fresh processes; not a solver verdict")
+    return res
+
+
 def job_unsupported(ctx):
     data, parsers = ctx.data, ctx.parsers
     res = new_result("unsupported[concrete]")
@@ -305,6 +368,14 @@ def replay(case, M_):
     data.CALENDAR.set_mode(mode)
     try:
         k = case["check"]
+        if k == "sequence":
+            seq = _seq()
+            for fmt, text, got in seq or []:
+                if fmt == case["fmt"] and text == case["text"]:
+                    want = _single(fmt, text)
+                    if got != want:
+                        return True, "in a sequence of calls, %s .strftime(%r) = %r; a fresh process gives %r" % (text, fmt, got, want)
+            return False, "sequence ok"
         if k == "unsupported":
             p = data.TimePoint(year=2004, month_of_year=2, day_of_month=29)
             bad = []
@@ -353,7 +424,7 @@ def replay(case, M_):
 
 def jobs(tier):
     th = tier == "thorough"
-    J = [("job_unsupported", {})]
+    J = [("job_unsupported", {}), ("job_sequence", {})]
     W = {"cal": [{"M": (1, 2)}, {"M": (3, 12)}], "ord": [{"DOY": (1, 60)}, {"DOY": (61, 366)}],
          "week": [{"W": (1, 1), "y0": (2, 2), "y1": (0, 0)}, {"W": (26, 26), "y0": (2, 2), "y1": (0, 0)},
                   {"W": (52, 53), "y0": (2, 2), "y1": (0, 0)}]}
@@ -407,5 +478,5 @@ INFO = {
     "assumptions": ["civil calendar date / day-of-year of ordinal and week points come from the real conversions (C03)",
                     "the regex shim interprets the library's own patterns; validated against re on every run"],
 }
-REQUIRED_SCENARIOS = {"all": ["strftime", "week-date point", "negative offset", "strptime round trip", "strptime defaults",
+REQUIRED_SCENARIOS = {"all": ["call sequences", "strftime", "week-date point", "negative offset", "strptime round trip", "strptime defaults",
                               "%s before 1970", "%s after 1970", "unsupported directives"]}
